@@ -37,7 +37,8 @@ def rto_cases(draw, tier="quick"):
          "pmean_kind": draw(st.sampled_from(["zero", "vector"])), "pmean": draw(gen.vec(n, -1, 1)),
          "gmrf_order": draw(st.sampled_from([1, 2])), "gmrf_prec": draw(gen.logpos(-0.5, 0.7)),
          "interface": draw(st.sampled_from(["experimental", "legacy", "legacy_tuple"])),
-         "x0": draw(gen.vec(n, -2, 2)), "x0b": draw(gen.vec(n, -2, 2))}
+         "x0": draw(gen.vec(n, -2, 2)), "x0b": draw(gen.vec(n, -2, 2)),
+         "sparse_switch": draw(st.sampled_from(["below", "below", "above"]))}
     if c["interface"] == "legacy_tuple":
         c["liks"] = c["liks"][:1]
         c["prior"] = "gauss"
@@ -115,12 +116,25 @@ def one_step_factory(c, target, parts, mu):
 
 def run_rto(c, rec):
     import cuqi
+    old = cuqi.config.MIN_DIM_SPARSE
+    try:
+        if c.get("sparse_switch") == "above":
+            # the documented, modifiable threshold above which Gaussians keep sparse square roots: lowering it sends these
+            # small cases through the code path that true sizes > 75 take
+            cuqi.config.MIN_DIM_SPARSE = 1
+        _run_rto(c, rec)
+    finally:
+        cuqi.config.MIN_DIM_SPARSE = old
+
+
+def _run_rto(c, rec):
+    import cuqi
     n = c["n"]
     nl = len(c["liks"])
     nontriv = any(lk["m"] >= 2 for lk in c["liks"]) and (nl >= 2 or c["pmean_kind"] == "vector" or c["prior"] == "gmrf" or
                                                          any(lk["form"] != "cov_scalar" for lk in c["liks"]) or c["pform"] != "cov_scalar")
     tags = {"interface": c["interface"], "nlik": nl, "prior": c["prior"], "pmean": c["pmean_kind"],
-            "backing": "+".join(sorted(set(lk["backing"] for lk in c["liks"])))}
+            "backing": "+".join(sorted(set(lk["backing"] for lk in c["liks"]))), "sparse_switch": c.get("sparse_switch", "below")}
     if rec.classify(tags, nontriv):
         return
     refused, built = refuses(lambda: build_rto_target(c))
@@ -234,7 +248,88 @@ def run_ugla(c, rec):
             f"UGLA ({c['interface']}): offset of the draw is not the mean of the documented local Gaussian at the current state", got=a, want=xstar)
 
 
+# ----------------------------------------------------------------------------- the draw depends on the current state only
+
+@st.composite
+def hist_cases(draw, tier="quick"):
+    kind = draw(st.sampled_from(["rto", "ugla", "ugla"]))
+    c = draw(rto_cases(tier)) if kind == "rto" else draw(ugla_cases(tier))
+    if kind == "rto" and c["interface"] == "legacy_tuple":
+        c["interface"] = "legacy"
+    c["kind"] = kind
+    c["steps"] = draw(st.integers(2, 4))
+    c["useed"] = draw(st.integers(0, 10 ** 6))
+    return c
+
+
+def run_hist(c, rec):
+    """Markov property of the kernel, independent of any formula: a sampler that reaches x_k by its own steps and a fresh
+    sampler started at x_k must map the same normal perturbation to the same next state (nothing computed at an earlier
+    state may survive into the step)."""
+    import cuqi
+    kind, nst = c["kind"], c["steps"]
+    tags = {"kind": kind, "interface": c["interface"], "steps": nst}
+    if kind == "ugla":
+        tags["location"] = c["loc_kind"]
+    if rec.classify(tags, True, cls=f"{kind},{c['interface']}" + (f",location={c['loc_kind']}" if kind == "ugla" else "")):
+        return
+    n = c["n"]
+    if kind == "rto":
+        refused, built = refuses(lambda: build_rto_target(c))
+        if refused:
+            rec.count("target_construction_refused")
+            return
+        target = built[0]
+        x0 = A(c["x0"])
+        k = sum(lk["m"] for lk in c["liks"]) + n
+        maxit, tol = 20 * n + 100, 1e-14
+        mk_new = lambda x: cuqi.experimental.mcmc.LinearRTO(target, initial_point=x.copy(), maxit=maxit, tol=tol)
+        mk_old = lambda x: cuqi.sampler.LinearRTO(target, x0=x.copy(), maxit=maxit, tol=tol)
+    else:
+        Am = A(c["A"])
+        m = c["m"]
+        loc = {"zero": 0.0, "scalar": float(c["loc"][0]), "vector": A(c["loc"])}[c["loc_kind"]]
+        model = cuqi.model.LinearModel(Am) if c["backing"] == "matrix" else \
+            cuqi.model.LinearModel(lambda v: Am @ v, lambda w: Am.T @ w, range_geometry=m, domain_geometry=n)
+        x = cuqi.distribution.LMRF(loc, c["scale"], bc_type=c["bc"], geometry=n, name="x")
+        y = cuqi.distribution.Gaussian(model(x), c["nvar"], geometry=m, name="y")
+        target = cuqi.distribution.JointDistribution(y, x)(y=A(c["data"]))
+        x0 = A(c["xk"])
+        k = m + c20.ref_D(n, c["bc"], 1).shape[0]
+        maxit, tol = 40 * n + 200, 1e-14
+        mk_new = lambda x: cuqi.experimental.mcmc.UGLA(target, initial_point=x.copy(), maxit=maxit, tol=tol, beta=c["beta"])
+        mk_old = lambda x: cuqi.sampler.UGLA(target, x0=x.copy(), maxit=maxit, tol=tol, beta=c["beta"])
+    E = np.random.RandomState(c["useed"]).standard_normal((nst, k))
+
+    def chain(xstart, es):
+        """states after each of len(es) steps from xstart with the scripted perturbations"""
+        flat = [v for e in es for v in e]
+        if c["interface"] == "experimental":
+            s = mk_new(xstart)
+            s.initialize()
+            out = []
+            with patched_global(ScriptedRNG(normal=flat)):
+                for _ in es:
+                    s.step()
+                    out.append(np.asarray(s.current_point, dtype=float).copy())
+            return out
+        s = mk_old(xstart)
+        with patched_global(ScriptedRNG(normal=flat)):
+            S = s.sample(len(es) + 1)
+        X = np.asarray(S.samples, dtype=float)
+        return [X[:, i + 1].copy() for i in range(len(es))]
+    full = must(lambda: chain(x0, list(E)), f"{kind} chain")
+    for j in range(1, nst):
+        one = must(lambda: chain(full[j - 1], [E[j]]), f"{kind} step")[0]
+        scale = 1.0 + np.max(np.abs(full[j]))
+        require(np.max(np.abs(one - full[j])) <= 1e-6 * scale,
+                f"{'LinearRTO' if kind == 'rto' else 'UGLA'} ({c['interface']}): step {j + 1} of a chain differs from the step a fresh sampler started at the "
+                "same state makes with the same normal perturbation (the kernel depends on more than the current state)",
+                step=j + 1, chain=full[j], fresh=one)
+
+
 SUBCHECKS = [
     SubCheck("C06/linear_rto", run_rto, strategy=rto_cases, n={"quick": 400, "thorough": 10000}, shards={"quick": 8, "thorough": 16}),
     SubCheck("C06/ugla", run_ugla, strategy=ugla_cases, n={"quick": 300, "thorough": 6000}, shards={"quick": 8, "thorough": 16}),
+    SubCheck("C06/history_independence", run_hist, strategy=hist_cases, n={"quick": 300, "thorough": 6000}, shards={"quick": 8, "thorough": 16}),
 ]
